@@ -74,9 +74,10 @@ def kinds():
         'rate': lambda o, a: o(a['m1'], r=72),
         'duplex': lambda o, a: o.duplex(a['m1'][:1], bitlen=5, outlen=16),
         'bad': lambda o, a: o(a['m1'], bitlen=8 * len(a['m1']) + 1),
+        'badrate': lambda o, a: o(a['m1'], bitlen=8 * len(a['m1']) + 1, r=72),
     }
     K['keccak200'] = Kind('keccak200', lambda a: kk.Keccak(b=200, r=40, len=64), kc)
-    K['keccak_256.singleton'] = Kind('keccak_256.singleton', lambda a: kk.keccak_256, {k: v for k, v in kc.items() if k in ('m1', 'm2', 'bits', 'bad')},
+    K['keccak_256.singleton'] = Kind('keccak_256.singleton', lambda a: kk.keccak_256, {k: v for k, v in kc.items() if k in ('m1', 'm2', 'bits', 'bad', 'badrate')},
                                      fresh=lambda a: kk.Keccak(b=1600, c=512, len=256))
     K['sha3_256'] = Kind('sha3_256', lambda a: sha.SHA3(256), {'m1': lambda o, a: o(a['m1']), 'm2': lambda o, a: o(a['m2']),
                                                                  'raw': lambda o, a: kk.Keccak.__call__(o, a['m1'], bitlen=5)})
@@ -162,7 +163,7 @@ CALLS = {
     'md4': ['m1', 'm2', 'bits', 'bad', 'stream'], 'md5': ['m1', 'm2', 'bits', 'bad', 'stream'],
     'blake256': ['m1', 'm2', 'salt', 'bits', 'bad', 'stream'], 'blake256.singleton': ['m1', 'm2', 'salt', 'bits', 'bad', 'stream'],
     'blake2s': ['m1', 'm2', 'outlen', 'salt', 'tree', 'bad', 'long'], 'blake2s.singleton': ['m1', 'm2', 'outlen', 'salt', 'tree', 'bad', 'long'],
-    'keccak200': ['m1', 'm2', 'bits', 'rate', 'duplex', 'bad'], 'keccak_256.singleton': ['m1', 'm2', 'bits', 'bad'], 'sha3_256': ['m1', 'm2', 'raw'],
+    'keccak200': ['m1', 'm2', 'bits', 'rate', 'duplex', 'bad', 'badrate'], 'keccak_256.singleton': ['m1', 'm2', 'bits', 'bad', 'badrate'], 'sha3_256': ['m1', 'm2', 'raw'],
     'hmac_sha1': ['m1', 'm2'],
     'aes128': ['enc1', 'enc2', 'dec1', 'bad'], 'aes128.other': ['enc1', 'dec1'], 'des': ['enc1', 'enc2', 'dec1', 'bad'], 'tdea': ['enc1', 'dec1', 'bad'],
     'serpent': ['enc1', 'enc2', 'dec1', 'bad'], 'threefish256': ['enc1', 'enc2', 'dec1', 'bad'],
@@ -172,7 +173,7 @@ CALLS = {
     'crc32': ['c1', 'c2', 'fix', 'gen'], 'nilsimsa': ['a', 'b', 'upd'], 'tlsh': ['a', 'b', 'short', 'upd'], 'tlsh.singleton': ['a', 'b', 'short', 'upd'],
 }
 # calls whose own result is not a value to compare (they only disturb state)
-NOISE = {'stream', 'upd', 'rekey', 'duplex'}      # duplex() is a stateful construction by design: only used as a disturbing call
+NOISE = {'stream', 'upd', 'rekey', 'duplex', 'badrate'}      # duplex() is a stateful construction by design: only used as a disturbing call
 
 
 class History(Case):
@@ -271,4 +272,54 @@ class History(Case):
             return ['raised']
 
 
+class CrossKey(Case):
+    """state shared between INSTANCES (class-level caches, module tables): an object is used, then a second object of the same class
+    with a related key - same bytes zero-extended to another key size, a parity twin, the same key - encrypts a symbolic block; the
+    result must equal the reference cipher (a 'fresh object' of the same process would share the polluted class state)."""
+    prop = 'C10'
+    name = 'C10.crosskey'
+    timeout_s = 600
+    bounds = ('AES with concrete key pairs (k, k zero-extended to 24 and 32 bytes; all-zero keys of the three sizes; identical keys) and DES with parity-twin keys: first object encrypts, second object '
+              'encrypts/decrypts a SYMBOLIC block == FIPS-197 / FIPS 46-3 reference (leaves as in C02)')
+
+    @property
+    def uf_concrete(self):
+        from props import c02
+        return c02.UFC
+
+    def shapes(self, tier):
+        z16, p16 = '00' * 16, '000102030405060708090a0b0c0d0e0f'
+        for k1, k2 in ((z16, '00' * 24), (z16, '00' * 32), ('00' * 24, z16), (p16, p16 + '00' * 8), (p16, p16 + '00' * 16), (p16 + '00' * 8, p16), (p16, p16)):
+            for d in ('enc', 'dec'):
+                yield dict(cipher='aes', k1=k1, k2=k2, dir=d)
+        for k1, k2 in (('0123456789abcdef', '0022446688aaccee'), ('0022446688aaccee', '0123456789abcdef')):
+            yield dict(cipher='des', k1=k1, k2=k2, dir='enc')
+
+    def mk(self, shape, src):
+        return (src.bytes('B', 16 if shape['cipher'] == 'aes' else 8), src.bytes('B0', 16 if shape['cipher'] == 'aes' else 8))
+
+    def stubs(self, shape):
+        from symx.harness import patched
+        from props import c02
+        return patched(c02.patches_for('aes128' if shape['cipher'] == 'aes' else 'des'))
+
+    def impl(self, shape, args):
+        k1, k2 = bytes.fromhex(shape['k1']), bytes.fromhex(shape['k2'])
+        if shape['cipher'] == 'aes':
+            from crysp.aes import AES as C
+        else:
+            from crysp.des import DES as C
+        a = C(k1)
+        a.enc(args[1])
+        b = C(k2)
+        return b.enc(args[0]) if shape['dir'] == 'enc' else b.dec(args[0])
+
+    def spec(self, shape, args):
+        from props import c02
+        k2 = bytes.fromhex(shape['k2'])
+        sh = dict(cipher='aes128' if shape['cipher'] == 'aes' else 'des')
+        return _b(c02.ref_crypt(sh, list(k2), None, list(args[0]), shape['dir'] == 'dec', self.symbolic))
+
+
 register(History())
+register(CrossKey())
